@@ -693,6 +693,227 @@ impl Family for FilesThroughBinary {
 
 
 // ---------------------------------------------------------------------------------------------------------------
+// A file that is refused as a whole (it has definitions but no module declaration) next to healthy files: whatever
+// the refused file defined must not live on in what the other files are resolved against - least of all a
+// definition named like a primitive type.
+
+pub struct RefusedFiles;
+const RF_NAMES: [&str; 21] = [
+    "\\bool", "\\int8", "\\uint8", "\\int16", "\\uint16", "\\int32", "\\uint32", "\\varint32", "\\varuint32", "\\int64", "\\uint64", "\\varint62", "\\varuint62", "\\float32", "\\float64", "\\string", "\\AnyClass",
+    "S", "M", "U", "\\Sequence",
+];
+const RF_KINDS: [&str; 7] = ["struct {N} {}", "compact struct {N} { x: {N} }", "enum {N} { A }", "unchecked enum {N} : uint8 {}", "typealias {N} = Sequence<{N}>", "custom {N}", "interface {N} { op() }"];
+const RF_SHAPES: [&str; 4] = ["{D}\n", "{D}\nstruct Other { a: {N} }\n", "{D}\nmodule M\n", "[[allow(All)]]\n{D}\n"];
+const RF_USERS: [&str; 7] = [
+    "module M\nstruct U { a: int32, b: string?, c: Sequence<uint8> }\n",
+    "module M\nstruct U { a: S }\nstruct S {}\n",
+    "module M\ninterface I { op(a: varuint62, b: Dictionary<string, bool>) -> Result<float64, AnyClass?> }\n",
+    "module M\nenum E : uint8 { A = 1 }\ntypealias T = Sequence<int64>\nstruct U { t: T, e: E }\n",
+    "module M::N\ncustom C\nstruct U { tag(1) a: int16?, c: C }\n",
+    "module M\n/// See {@link int32} and {@link S}.\nstruct U { a: float32 }\n",
+    "struct AlsoRefused { a: int32 }\n",
+];
+impl RefusedFiles {
+    fn texts(&self, idx: u64) -> Vec<String> {
+        let mut i = idx as usize;
+        let order = i % 3;
+        i /= 3;
+        let user = RF_USERS[i % RF_USERS.len()];
+        i /= RF_USERS.len();
+        let shape = RF_SHAPES[i % RF_SHAPES.len()];
+        i /= RF_SHAPES.len();
+        let kind = RF_KINDS[i % RF_KINDS.len()];
+        i /= RF_KINDS.len();
+        let name = RF_NAMES[i];
+        let refused = shape.replace("{D}", kind).replace("{N}", name);
+        match order {
+            0 => vec![refused, user.to_string()],
+            1 => vec![user.to_string(), refused],
+            _ => vec![RF_USERS[0].replace("module M", "module First"), refused, user.to_string()],
+        }
+    }
+}
+impl Family for RefusedFiles {
+    fn name(&self) -> String {
+        format!("refused-files/a file without a module declaration holding {} kinds of definition under {} names (every primitive type name escaped, names of the other file) in {} shapes x {} other files x 3 arrangements", RF_KINDS.len(), RF_NAMES.len(), RF_SHAPES.len(), RF_USERS.len())
+    }
+    fn len(&self) -> u64 {
+        (RF_NAMES.len() * RF_KINDS.len() * RF_SHAPES.len() * RF_USERS.len() * 3) as u64
+    }
+    fn describe(&self, idx: u64) -> Value {
+        json!({"files": self.texts(idx)})
+    }
+    fn run(&self, idx: u64) -> CaseOut {
+        let texts = self.texts(idx);
+        let mut out = CaseOut::new(hash_str(&texts.join("\u{1}")));
+        out.nontrivial = true;
+        let refs: Vec<&str> = texts.iter().map(|s| s.as_str()).collect();
+        out.class = verdict_both(&refs, &mut out, "refused-files", &|| texts.join("\n--- next file ---\n"));
+        out
+    }
+}
+
+// ---------------------------------------------------------------------------------------------------------------
+// Where the output goes: the diagnostics and the summary are written at the very end, to streams the compiler does
+// not control - a reader that has gone away, a full device, a closed descriptor.
+
+pub struct OutputStreams;
+const OS_STREAMS: [&str; 4] = ["pipe", "full", "broken", "closed"];
+const OS_PROGRAMS: [(&str, &str); 5] = [
+    ("clean", "module M\nstruct S { a: int32 }\n"),
+    ("warnings", "module M\n[deprecated] struct D {}\nstruct U { d: D }\n/// @param nope: x\ninterface I { op() }\n"),
+    ("syntax-error", "module M\nstruct {\n"),
+    ("many-errors", "module M\nstruct S { a: X1, b: X2, c: X3, d: X4, e: X5, f: X6, g: X7, h: X8 }\n"),
+    ("missing-file", ""),
+];
+const OS_GENS: [&str; 4] = ["no generator", "a generator replying with a warning", "a generator that fails with text on stderr", "two generators"];
+impl OutputStreams {
+    fn scenario(&self, idx: u64) -> (Scenario, String) {
+        let mut i = idx as usize;
+        let so = OS_STREAMS[i % 4];
+        i /= 4;
+        let se = OS_STREAMS[i % 4];
+        i /= 4;
+        let json = i % 2 == 1;
+        i /= 2;
+        let g = i % OS_GENS.len();
+        i /= OS_GENS.len();
+        let (pname, text) = OS_PROGRAMS[i];
+        let mut sc = Scenario::default();
+        if pname == "missing-file" {
+            sc.argv.push("missing.slice".into());
+        } else {
+            sc.tree.push(("t.slice".into(), crate::proc::Node::File(text.as_bytes().to_vec())));
+            sc.argv.push("t.slice".into());
+        }
+        let warn = Gen { name: "warns".into(), install: Install::Script(Script(vec![Step::ReadAll, Step::Stdout(encode_reply(&[crate::proc::rfile("out.txt", "x")], &[crate::proc::RDiag { level: 1, message: "a warning from the generator".into(), source: None }])), Step::Exit(0)])) };
+        let fails = Gen { name: "fails".into(), install: Install::Script(Script(vec![Step::ReadAll, Step::Stderr(b"it went wrong\n".to_vec()), Step::Exit(3)])) };
+        match g {
+            0 => {}
+            1 => sc.gens.push(warn),
+            2 => sc.gens.push(fails),
+            _ => {
+                sc.gens.push(warn);
+                sc.gens.push(fails);
+            }
+        }
+        for k in 0..sc.gens.len() {
+            sc.argv.push("-G".into());
+            sc.argv.push(format!("{{gen{k}}}"));
+        }
+        if json {
+            sc.argv.extend(["--diagnostic-format".to_string(), "json".into()]);
+        }
+        sc.env.push(("MC_STDOUT".into(), so.into()));
+        sc.env.push(("MC_STDERR".into(), se.into()));
+        let d = format!("program {pname}, {}, format {}, stdout -> {so}, stderr -> {se}", OS_GENS[g], if json { "json" } else { "human" });
+        (sc, d)
+    }
+}
+impl Family for OutputStreams {
+    fn name(&self) -> String {
+        format!("output-streams/{} programs x {} generator set-ups x 2 formats x stdout and stderr each leading to {:?} (captured, /dev/full, a pipe nobody reads, closed)", OS_PROGRAMS.len(), OS_GENS.len(), OS_STREAMS)
+    }
+    fn len(&self) -> u64 {
+        (OS_PROGRAMS.len() * OS_GENS.len() * 2 * 16) as u64
+    }
+    fn hang_secs(&self) -> f64 {
+        60.0
+    }
+    fn describe(&self, idx: u64) -> Value {
+        let (sc, d) = self.scenario(idx);
+        json!({"scenario": d, "argv": sc.argv})
+    }
+    fn run(&self, idx: u64) -> CaseOut {
+        let (sc, d) = self.scenario(idx);
+        let mut out = CaseOut::new(hash_str(&format!("c01os{idx}")));
+        out.nontrivial = !d.contains("stdout -> pipe, stderr -> pipe");
+        let obs = run(&sc, Duration::from_secs(20));
+        let desc = || format!("{d}\nargv {:?}\nexit {:?} signal {:?} timed_out {}\nstdout {}\nstderr {}", obs.argv, obs.exit_code, obs.signal, obs.timed_out, truncate(&show_bytes(&obs.stdout), 300), truncate(&show_bytes(&obs.stderr), 600));
+        if obs.timed_out {
+            out.violate("c01/output-streams/hang", desc());
+        } else if let Some(loc) = obs.panic_location() {
+            out.violate(format!("c01/output-streams/panic@{loc}"), desc());
+        } else if let Some(sig) = obs.signal {
+            out.violate(format!("c01/output-streams/signal-{sig}"), desc());
+        } else if !matches!(obs.exit_code, Some(0) | Some(1) | Some(2)) {
+            out.violate(format!("c01/output-streams/exit-status-{:?}", obs.exit_code), desc());
+        }
+        out.class = format!("exit{:?}", obs.exit_code);
+        out
+    }
+}
+
+// ---------------------------------------------------------------------------------------------------------------
+// Dense containment cycles: complete graphs of structs and enums. The cycle detector reports one cycle per distinct
+// SET of types and finds them by walking every simple path, so its cost is factorial in the number of types that
+// all contain each other (measured: 9 types 1.3 s, 10 types 14 s, 11 types - 954 bytes - about 140 s).
+
+pub struct DenseCycles;
+const DC_TIMED_IN_PROCESS: [usize; 7] = [3, 4, 5, 6, 7, 8, 9];
+const DC_THROUGH_BINARY: [usize; 1] = [11];
+impl DenseCycles {
+    fn text(n: usize, enums: bool) -> String {
+        let mut s = String::from("module G\n");
+        for i in 0..n {
+            if enums && i % 3 == 1 {
+                s.push_str(&format!("enum N{i} {{ {} }}\n", (0..n).filter(|j| *j != i).map(|j| format!("V{j}(f{j}: N{j})")).collect::<Vec<_>>().join(" ")));
+            } else {
+                s.push_str(&format!("struct N{i} {{ {} }}\n", (0..n).filter(|j| *j != i).map(|j| format!("f{j}: N{j}")).collect::<Vec<_>>().join(" ")));
+            }
+        }
+        s
+    }
+}
+impl Family for DenseCycles {
+    fn name(&self) -> String {
+        format!("dense-cycles/complete containment graphs (every type has a field of every other type; all structs, and every third an enum) on {DC_TIMED_IN_PROCESS:?} types in-process and on {DC_THROUGH_BINARY:?} types through the binary with a 20 s watchdog")
+    }
+    fn len(&self) -> u64 {
+        ((DC_TIMED_IN_PROCESS.len() + DC_THROUGH_BINARY.len()) * 2) as u64
+    }
+    fn hang_secs(&self) -> f64 {
+        90.0
+    }
+    fn describe(&self, idx: u64) -> Value {
+        let k = (idx / 2) as usize;
+        let n = if k < DC_THROUGH_BINARY.len() { DC_THROUGH_BINARY[k] } else { DC_TIMED_IN_PROCESS[k - DC_THROUGH_BINARY.len()] };
+        json!({"types": n, "files": [Self::text(n, idx % 2 == 1)]})
+    }
+    fn run(&self, idx: u64) -> CaseOut {
+        let k = (idx / 2) as usize;
+        let enums = idx % 2 == 1;
+        let mut out = CaseOut::new(hash_str(&format!("c01dc{idx}")));
+        out.nontrivial = true;
+        if k >= DC_THROUGH_BINARY.len() {
+            let n = DC_TIMED_IN_PROCESS[k - DC_THROUGH_BINARY.len()];
+            let text = Self::text(n, enums);
+            out.class = verdict_both(&[&text], &mut out, &format!("dense-cycles/complete-graph-on-{n}-types"), &|| text.clone());
+            return out;
+        }
+        // (the slow cases come first, so that they start at once, each in a worker of its own)
+        let n = DC_THROUGH_BINARY[k];
+        let text = Self::text(n, enums);
+        let mut sc = Scenario::default();
+        sc.tree.push(("t.slice".into(), crate::proc::Node::File(text.clone().into_bytes())));
+        sc.argv = vec!["t.slice".into()];
+        // (no second attempt after the watchdog: two orders of magnitude separate this input from the bound)
+        let scratch = crate::proc::Scratch::new();
+        let obs = crate::proc::run_in(&scratch, &sc, Duration::from_secs(20));
+        let desc = || format!("a complete containment graph on {n} types, {} bytes of input\nexit {:?} signal {:?} timed_out {} after {:.1} s\nstderr {}\n--- input ---\n{text}", text.len(), obs.exit_code, obs.signal, obs.timed_out, obs.wall.as_secs_f64(), truncate(&show_bytes(&obs.stderr), 300));
+        if obs.timed_out {
+            out.violate(format!("c01/dense-cycles/complete-graph-on-{n}-types/no-verdict-within-20s"), desc());
+        } else if let Some(loc) = obs.panic_location() {
+            out.violate(format!("c01/dense-cycles/complete-graph-on-{n}-types/panic@{loc}"), desc());
+        } else if obs.signal.is_some() || obs.exit_code != Some(1) {
+            out.violate(format!("c01/dense-cycles/complete-graph-on-{n}-types/cycles-not-reported"), desc());
+        }
+        out.class = format!("{n}:exit{:?}:timed_out={}", obs.exit_code, obs.timed_out);
+        out
+    }
+}
+
+// ---------------------------------------------------------------------------------------------------------------
 // Cycles whose members also break (or skirt) other rules, next to every kind of user: validators that walk through
 // types (key rules, compactness, ...) rely on the cycle check having run and having seen THESE members too.
 
@@ -1235,7 +1456,7 @@ impl Family for FileArrangements {
     }
     fn describe(&self, idx: u64) -> Value {
         let sc = Self::scenario(idx);
-        json!({"argv": sc.argv, "tree": sc.tree.iter().map(|(n, k)| match k { crate::proc::Node::Symlink(t) => format!("{n} -> {t}"), crate::proc::Node::Dir => format!("{n}/"), _ => n.clone() }).collect::<Vec<_>>()})
+        json!({"argv": sc.argv, "tree": sc.tree.iter().map(|(n, k)| match k { crate::proc::Node::Symlink(t) => format!("{n} -> {t}"), crate::proc::Node::Dir => format!("{n}/"), crate::proc::Node::Fifo => format!("{n} (named pipe)"), _ => n.clone() }).collect::<Vec<_>>()})
     }
     fn run(&self, idx: u64) -> CaseOut {
         let sc = Self::scenario(idx);
@@ -1275,7 +1496,7 @@ impl Family for VerdictOnly {
         self.inner.describe(idx)
     }
     fn hang_secs(&self) -> f64 {
-        20.0
+        self.inner.hang_secs().max(60.0)
     }
     fn crash_sig(&self, _idx: u64, how: &str) -> String {
         format!("c01/cycle-graphs/{}/{how}", self.inner.name().split('/').next().unwrap_or(""))
@@ -1301,6 +1522,9 @@ pub fn families(tier: &str) -> Vec<Box<dyn Family>> {
         Box::new(BinaryOptions::new(if quick { 2 } else { 6 })),
         Box::new(FileArrangements),
         Box::new(GrowthThroughBinary),
+        Box::new(OutputStreams),
+        Box::new(RefusedFiles),
+        Box::new(DenseCycles),
         Box::new(CyclesWithUsers),
         Box::new(TokenSoups::new(if quick { 2 } else { 3 }, 0..10)),
         Box::new(TokenMutations::new()),
@@ -1323,6 +1547,7 @@ pub fn families(tier: &str) -> Vec<Box<dyn Family>> {
         v.push(Box::new(Sanitized::all(Box::new(Soups2 { n: 2 }))));
         v.push(Box::new(Sanitized::all(Box::new(TypeForms::new()))));
         v.push(Box::new(Sanitized::all(Box::new(WhitespaceKinds))));
+        v.push(Box::new(Sanitized::all(Box::new(RefusedFiles))));
         // ... and the instrumented BINARY (the sibling of the instrumented harness): directory walks, the request
         // builder on the enum-boundary cases and on comments with links
         v.push(Box::new(Sanitized::all(Box::new(FileArrangements))));
